@@ -921,23 +921,25 @@ fn partition(
         .into_iter()
         .partition(|m| m.should_keep(config) || !m.may_drop(config));
 
-    // If the set to retain is smaller than the number of files we must keep (rf), then
+    // A symbolic link does not store the data, so a sub-group consisting of links only
+    // (possible when the files were grouped with `--symbolic-links`) is not a replica:
+    // the files the links point to could be among the dropped ones.
+    let is_link = |f: &PathAndMetadata| f.link_metadata.is_some();
+    let is_replica = |g: &FileSubGroup<PathAndMetadata>| !g.files.iter().all(is_link);
+
+    // If the set to retain has fewer replicas than the number of files we must keep (rf), then
     // move some higher priority files from `to_drop` and append them to `to_retain`.
     let n = max(1, config.rf_over.unwrap_or(1));
-    let missing_count = min(to_drop.len(), n.saturating_sub(to_retain.len()));
-    to_retain.extend(to_drop.drain(0..missing_count));
-
-    // A symbolic link does not store the data. If only symbolic links were retained
-    // (possible when the files were grouped with `--symbolic-links`), the files they point to
-    // could be among the dropped ones. Retain also the first sub-group with a real file.
-    let is_link = |f: &PathAndMetadata| f.link_metadata.is_some();
-    if to_retain.iter().all(|g| g.files.iter().all(is_link)) {
-        if let Some(i) = to_drop.iter().position(|g| !g.files.iter().all(is_link)) {
-            to_retain.push(to_drop.remove(i));
+    while to_retain.iter().filter(|g| is_replica(g)).count() < n {
+        match to_drop.iter().position(is_replica) {
+            Some(i) => to_retain.push(to_drop.remove(i)),
+            None => break,
         }
     }
 
-    assert!(to_retain.len() >= n || to_drop.is_empty());
+    assert!(
+        to_retain.iter().filter(|g| is_replica(g)).count() >= n || !to_drop.iter().any(is_replica)
+    );
     Ok(PartitionedFileGroup {
         to_keep: to_retain.into_iter().flat_map(|g| g.files).collect(),
         to_drop: to_drop.into_iter().flat_map(|g| g.files).collect(),
